@@ -37,6 +37,59 @@ def run(res, tier, seed, replay):
     if not pr.harness_ok:
         res.violation("build failed: " + pr.harness_err[-800:], {"obligation": "build"}, found_input=False)
         return
+    # directed: a fresh method on an unrelated path that USES existing declarations (a type as its Path body, as its query,
+    # headers, request and response; an enum; a macro pasted by an existing block) at every insertion point: the entries of the
+    # things it uses - and every other entry - stay byte for byte what they were
+    from ..gendoc import expect as E
+    from .. import proj as P
+    J = "JSIGHT 0.3\n"
+    base_blocks = [
+        "TYPE @petKey\n  {\n    \"id\": 1 // {optional: true}\n  }\n",
+        "TYPE @flags\n  {\n    \"a\": \"x\", // {optional: true}\n    \"b\": 2 // {min: 1}\n  }\n",
+        "ENUM @kind\n  [\"cat\", \"dog\"]\n",
+        "TYPE @pet\n  {\n    \"key\": @petKey,\n    \"kind\": \"cat\" // {enum: @kind}\n  }\n",
+        "MACRO @errors\n(\n  404 any\n)\n",
+        "GET /cats\n  200 @pet\n  PASTE @errors\n",
+        "URL /cats/{n}\n  Path\n    {\n      \"n\": 1\n    }\n  GET\n    200 [@pet]\n",
+    ]
+    fresh_blocks = [
+        ("method with Path given as a body that refers to the type", "GET /zebras/{id}\n  Path\n    @petKey\n  200 any\n", ["http GET /zebras/{id}"], ["@zebras"]),
+        ("method with two-parameter Path @flags", "PUT /zebras/{a}/{b}\n  Path\n    @flags\n  200 any\n", ["http PUT /zebras/{a}/{b}"], ["@zebras"]),
+        ("method using @flags as query and headers", "POST /zebras\n  Query\n    @flags\n  Request\n    Headers\n      @flags\n    Body @pet\n  200 @petKey\n",
+         ["http POST /zebras"], ["@zebras"]),
+        ("URL block pasting @errors", "URL /zebras\n  GET\n    200 @pet\n    PASTE @errors\n  DELETE\n    PASTE @errors\n    204 any\n", ["http GET /zebras", "http DELETE /zebras"], ["@zebras"]),
+        ("type inheriting from @flags and @petKey", "TYPE @fresh\n  { // {allOf: [\"@flags\", \"@petKey\"]}\n    \"z\": 1\n  }\n", [], []),
+        ("JSON-RPC method using the types", "URL /zebras\n  Protocol json-rpc-2.0\n  Method feed\n    Params\n      @flags\n    Result\n      [@pet]\n", ["json-rpc-2.0 feed /zebras"], ["@zebras"]),
+    ]
+    base_doc = J + "".join(base_blocks)
+    o0 = C.run_lines("harness", "fn", [P.run_line("out=json", [("a.jst", base_doc.encode())])])[0]
+    s0, d0 = P.parse(o0)
+    dcases = []
+    for label, blk, new_inter, new_tags in fresh_blocks:
+        for pos in range(len(base_blocks) + 1):
+            dcases.append((label, pos, J + "".join(base_blocks[:pos]) + blk + "".join(base_blocks[pos:]), new_inter, new_tags))
+    outs_d = C.run_sharded("harness", "fn", [P.run_line("out=json", [("a.jst", d.encode())]) for _, _, d, _, _ in dcases])
+    res.count(len(dcases) + 1)
+    if s0 != "ok":
+        res.violation("the base document of the directed stage is rejected: %s" % o0[:200], {"doc": C.hx(base_doc.encode())})
+        return
+    j0 = C.unhx(d0["json"])
+    n_dir = 0
+    for (label, pos, doc, new_inter, new_tags), o in zip(dcases, outs_d):
+        st, dd = P.parse(o)
+        if st != "ok":
+            res.violation("a declaration is not local: adding a fresh %s at position %d of the base document changes the verdict: %s" % (
+                label, pos, C.unhx(dd.get("msg", "-")).decode("latin1")[:120]), {"doc": C.hx(doc.encode()), "base": C.hx(base_doc.encode())})
+            return
+        ds = E.compare_entries(j0, C.unhx(dd["json"]), extra_in_b={"interactions": new_inter, "tags": new_tags, "userTypes": ["@fresh"]})
+        ds = [x for x in ds if not (x["class"] in ("example",))]
+        if ds:
+            res.violation("a declaration is not local: a fresh %s at position %d changes another entry: %s" % (label, pos, "; ".join(x["text"][:300] for x in ds[:3])),
+                          {"doc": C.hx(doc.encode()), "base": C.hx(base_doc.encode())})
+            return
+        n_dir += 1
+        res.nontrivial(("directed-fresh", label, pos))
+    res.notes["directed_fresh_declarations"] = {"cases": len(dcases), "unchanged_old_entries": n_dir}
     last, bad = GP.run(res, "C20", tier, seed, replay, pr, take, known_rule)
     for msg, rp, found in bad:
         res.violation("a declaration is not local: " + msg, rp, found_input=found)
